@@ -46,6 +46,15 @@ def render_record(layout, values):
     return out
 
 
+def fv(m, rec, field, row, default):
+    """The value of a numeric field of record `rec` in row `row`: the model's own, unless this field is the one that is to fill
+    its columns in this file (m.fill = {(rec, field): (row, value)}, from the fill table exported by TLC)."""
+    hit = getattr(m, "fill", {}).get((rec, field))
+    if hit is not None and hit[0] == row:
+        return hit[1]
+    return default
+
+
 class Model:
     """A random molecular model with tagged values (all reals in the units and digits of the target file)."""
 
@@ -110,9 +119,9 @@ def w_pdb(m, lay, rng, variant):
         nm = (s.upper() + str(i % 100))[:4]
         names.append(nm)
         resn.append(["ALA", "GLY", "HOH"][i % 3])
-        resq.append(1 + (i // 3) % 9999)
-        occ.append(round(0.01 * (1 + i % 99), 2))
-        bf.append(round(1.0 + 0.07 * (i % 1300), 2))
+        resq.append(fv(m, "pdb_atom", "resseq", i, 1 + (i // 3) % 9999))
+        occ.append(fv(m, "pdb_atom", "occ", i, round(0.01 * (1 + i % 99), 2)))
+        bf.append(fv(m, "pdb_atom", "b", i, round(1.0 + 0.07 * (i % 1300), 2)))
         chain.append("ABC"[i % 3])
         lines.append(render_record(lay["pdb_atom"], {"rec": "ATOM" if i % 5 else "HETATM", "serial": (i + 1) % 100000, "name": nm,
                                                       "resname": resn[-1], "chain": chain[-1], "resseq": resq[-1], "x": r[0], "y": r[1],
@@ -140,12 +149,16 @@ def w_pdb(m, lay, rng, variant):
 
 def w_gro(m, lay, rng, variant):
     vel = np.array([[round(0.1 * (-1) ** (i + k) + 0.0007 * (3 * i + k), 4) for k in range(3)] for i in range(m.natom)])
+    for k, name in enumerate(("vx", "vy", "vz")):
+        hit = getattr(m, "fill", {}).get(("gro_atom", name))
+        if hit is not None:
+            vel[hit[0] % m.natom, k] = hit[1]
     lines = [f"{m.title}, t= 12.500", f"{m.natom:5d}"]
     names, resn, resq = [], [], []
     for i, (s, r) in enumerate(zip(m.sym, m.xyz)):
         names.append((s.upper() + str(i % 1000))[:5] if i % 4 != 2 else ["CMAB1", "HEME2", "OXT12"][i % 3])   # also names filling the five columns
         resn.append(["SOL", "WAT", "LIG", "HEMEA", "POPC1"][i % 5])
-        resq.append(1 + (i // 3) % 99999)
+        resq.append(fv(m, "gro_atom", "resnum", i, 1 + (i // 3) % 99999))
         lines.append(render_record(lay["gro_atom"], {"resnum": resq[-1], "resname": resn[-1], "atname": names[-1], "atnum": (i + 1) % 100000,
                                                       "x": r[0], "y": r[1], "z": r[2], "vx": vel[i, 0], "vy": vel[i, 1], "vz": vel[i, 2]}))
     box = [3.15, 3.3, 3.725]
@@ -169,10 +182,11 @@ def w_crd(m, lay, rng, variant):
                for i, w in enumerate(m.masses)]
     if getattr(m, "weights_are_masses", False):      # the cross-format comparison of C04 writes the masses of the model
         weights = list(m.masses)
+    weights = [fv(m, "crd_atom", "weight", i, w) for i, w in enumerate(weights)]
     for i, (s, r) in enumerate(zip(m.sym, m.xyz)):
         names.append((s.upper() + str(i % 100))[:4] if i % 4 else ("CG2R", "OT12", "H123")[i % 3])     # also names filling the column
         resn.append(["ALA", "GLY", "TIP3"][i % 3])
-        resq.append(1 + (i // 3) % 9999)
+        resq.append(fv(m, "crd_atom", "resno", i, 1 + (i // 3) % 9999))
         seg.append(["PROT", "SOLV"][i % 2])
         rid.append(997 + (i // 3) % 9000)                                                             # three and four digits
         lines.append(render_record(lay["crd_atom"], {"atomno": (i + 1) % 100000, "resno": resq[-1], "resname": resn[-1], "type": names[-1],
@@ -281,8 +295,10 @@ def w_cube(m, lay, rng, variant):
     lines = [m.title, "OUTER LOOP: X, MIDDLE LOOP: Y, INNER LOOP: Z",
              f"{m.natom:5d}" + "".join(f"{v:12.6f}" for v in origin) + (f"{1:5d}" if variant == "nval" else "")]   # optional NVal field
     for k in range(3):
+        for a, name in enumerate(("x", "y", "z")):
+            axes[k, a] = fv(m, "cube_axis", name, k, axes[k, a])
         lines.append(render_record(lay["cube_axis"], {"n": shape[k], "x": axes[k, 0], "y": axes[k, 1], "z": axes[k, 2]}))
-    q = [round(float(z) - 0.5 * (i % 2), 6) for i, z in enumerate(m.z)]
+    q = [fv(m, "cube_atom", "q", i, round(float(z) - 0.5 * (i % 2), 6)) for i, z in enumerate(m.z)]
     for i, (z, r) in enumerate(zip(m.z, m.xyz)):
         lines.append(render_record(lay["cube_atom"], {"z": z, "q": q[i], "x": r[0], "y": r[1], "zz": r[2]}))
     data = np.zeros(shape)
@@ -490,7 +506,7 @@ def w_gamess(m, lay, rng, variant):
     lines += ["----- RESULTS FROM SUCCESSFUL RHF      GEOMETRY SEARCH -----", "----- COORDS, ORBS, GRADIENT, AND APPROX. HESSIAN -----",
               " COORDINATES OF SYMMETRY UNIQUE ATOMS (ANGS)", "   ATOM   CHARGE       X              Y              Z",
               " ------------------------------------------------------------"]
-    lines += [f" {sy:<10s}{float(z):5.1f}{r[0]:15.10f}{r[1]:15.10f}{r[2]:15.10f}" for sy, z, r in zip(sym, m.z, ang)]
+    lines += [render_record(lay["gamess_coord"], {"sym": sy, "charge": float(z), "x": r[0], "y": r[1], "z": r[2]}) for sy, z, r in zip(sym, m.z, ang)]
     lines += grad_group(0.0)
     lines += ["CAUTION, APPROXIMATE HESSIAN!"] + hess_group(hess * 0.0 + 0.333)
     lines += grad_group(0.0)
